@@ -291,7 +291,7 @@ def build():
     p.write_hooks[("Parallel", "n_dispatched_tasks")] = p.guarded("n_dispatched_tasks")
     p.write_hooks[("Parallel", "n_dispatched_batches")] = p.guarded("n_dispatched_batches")
     disp = Contract(
-        PAR, "Parallel._dispatch", props=["C01", "C09", "C04"],
+        PAR, "Parallel._dispatch", props=["C01", "C09", "C04", "C16"],
         inline={"_register_new_job", "register_job"},
         params=dict(self=parallel(_jobs_set=lambda i: Opaque("jobsset", None)), batch=OpaqueOf("batch", size=INT)),
         requires=["lock_depth() == 1", "batch.size >= 1"],
